@@ -400,8 +400,8 @@ def kernel_codes(ctx, name, terms):
 
 def run_kernel(ctx, items, results):
     """model vs client inside Coq -> ({item index: component codes}, failing item indices, evaluated indices)"""
-    # quick tier: every corpus report and every third other report (the tokenisation oracle sees all of them)
-    sel = [i for i, it in enumerate(items) if not ctx.quick or it['origin'] == 'corpus' or i % 3 == 0]
+    # quick tier: every corpus report and every fourth other report (the tokenisation oracle sees all of them)
+    sel = [i for i, it in enumerate(items) if not ctx.quick or it['origin'] == 'corpus' or i % 4 == 0]
     terms = [full_term(items[i], results[i], with_csv=(k % 3 == 0 or items[i]['origin'] == 'corpus')) for k, i in enumerate(sel)]
 
     def body(lo, hi):
@@ -421,6 +421,7 @@ def number_tokens(ctx):
     import logging
     from geophires_x_client.geophires_x_result import GeophiresXResult
     rnd = ctx.rng
+    logging.disable(logging.CRITICAL)
     g = object.__new__(GeophiresXResult)
     g._logger = logging.getLogger('c10')
     toks = ['N/A', '', '-', '.', '1.', '.5', '-.5', '+1.5', '1_000', '1__0', '_1', '1_', '1_000.5', '1._5', '1e5', '1.5e3', '1.5E+300', '1.5e-7',
@@ -441,13 +442,45 @@ def number_tokens(ctx):
                     expected='value of Model.ResultParser.parse_number (see replay)')
 
 
+def hip_ra_reports(ctx):
+    """HipRaResult (hip_ra/__init__.py, also the client of HIP-RA-X) is one regular expression, not the line/marker
+    machinery modelled here: no theorem applies; the stored HIP reports and variants with wide / negative / exponent
+    figures are only checked against the independent tokenisation (oracle, no Coq model)"""
+    from hip_ra import HipRaResult
+    rnd = ctx.rng
+    files = sorted(glob.glob(str(fw.REPO / 'tests' / 'hip_ra*_tests' / '*.out')) + glob.glob(str(fw.REPO / 'tests' / 'hip_ra_x_tests' / 'examples' / '*.out')))
+    texts = [(f, Path(f).read_text()) for f in files]
+    line_re = re.compile(r'^( +[^:\n]+(?:\([^)\n]*\))?:)( +)(-?[\d.]+(?:e[+-]?\d+)?)((?: \S+)?)$', re.M | re.I)
+    for k in range(ctx.n(40, 400)):
+        f, t = rnd.choice(texts[:len(files)])
+        texts.append((f'{f}#{k}', line_re.sub(lambda m: m.group(1) + m.group(2) + rnd.choice(['{:10.2f}', '{:10.2e}', '{:.2f}']).format(
+            rnd.choice([1, -1]) * rnd.choice([0.001, 3.5, 4567.8, 9.9e12, 2.5e21]) * rnd.random()).strip() + m.group(4)
+            if rnd.random() < 0.4 else m.group(0), t)))
+    n = 0
+    for name, t in texts:
+        p = ctx.scratch / 'hip.out'
+        p.write_text(t)
+        got = HipRaResult(str(p)).result
+        want = {}
+        for sec, label, toks, ind, val in R.scalar_lines(t):
+            if toks and re.fullmatch(r'[+-]?(\d+\.?\d*|\.\d+)(e[+-]?\d+)?', toks[0], re.I):
+                want[label] = {'value': float(toks[0]), 'unit': ' '.join(toks[1:]) or None}
+        n += len(want)
+        for label in sorted(set(want) | set(got)):
+            if want.get(label) != got.get(label):
+                ctx.violate('property', f'hipra:{label}', f'HipRaResult differs from the printed line "{label}" [{os.path.basename(name)}]',
+                            inp={'id': name, 'text': t, 'hip': True}, expected=want.get(label), observed=got.get(label))
+    ctx.count('hip-ra-reports (oracle only)', evaluations=n, files=len(files), variants=len(texts) - len(files))
+
+
 def correspondence(ctx, proofs_ok=True):
     import time
     t0 = time.time()
     lap = lambda what: (ctx.note(f'{what}: {time.time() - lap.t:.1f} s'), setattr(lap, 't', time.time()))
     lap.t = t0
     number_tokens(ctx)
-    lap('number tokens')
+    hip_ra_reports(ctx)
+    lap('number tokens + HIP-RA reports')
     fields, heads, names = c10_tables.client_tables()
     items = collect(ctx)
     lap('collect (stored reports, simulations, synthetic)')
